@@ -79,6 +79,11 @@ def gen_block(rng, targets, override=None):
         b["indent"] = [rng.choice(["", " ", "\t", "  "]) for _ in range(5)]
     if rng.random() < 0.15:
         b["trail"] = [rng.choice(["", " ", "\t", "  "]) for _ in range(4)]
+    # more than one blank line between blocks, comment paragraphs, blank lines at the start / end of the file
+    if rng.random() < 0.3:
+        b["before"] = rng.choice([[""], ["", ""], ["# a comment paragraph", ""], ["", "# note", "#", "", ""], ["   "]])
+    if rng.random() < 0.15:
+        b["after"] = rng.choice([[""], ["", ""], ["# the end", ""], ["#"]])     # only used on the last block
     return b
 
 
@@ -101,7 +106,17 @@ def render_block(b, nl="\n"):
 
 
 def render_linkfile(blocks, nl="\n"):
-    return nl.join(render_block(b, nl) for b in blocks)
+    """Blocks are separated by one blank line — or by more: b["before"] is a list of lines that stand between
+    the previous block's separator and this block (blank lines, comment paragraphs); the list under the key
+    "after" of the LAST block follows a final blank line (trailing blank lines / comments)."""
+    parts = []
+    for i, b in enumerate(blocks):
+        pre = "".join(l + nl for l in b.get("before", []))
+        parts.append(pre + render_block(b, nl))
+    text = nl.join(parts)
+    if blocks and blocks[-1].get("after"):
+        text += nl + "".join(l + nl for l in blocks[-1]["after"])
+    return text
 
 
 # ----------------------------------------------------------------------------
